@@ -78,12 +78,24 @@ def _last_request(evs):
     return None
 
 
-def _fault_tag(req):
+def _fault_tag(req, evs=None):
+    """the injected fault of request `req`; "nofault" if none was armed or the armed one never hit (evs: events of the case)"""
     if req is None:
         return "-"
     f = req.get("fault", {})
     if not f.get("idx"):
         return "nofault"
+    if evs is not None:
+        hit, seen = False, False
+        for e in evs:
+            if e is req:
+                seen = True
+            elif seen and e["ev"] == "Fail" and e.get("mode") in ("entry", "op"):
+                hit = True
+            elif seen and e["ev"] in ("Settle", "Request"):
+                break
+        if not hit:
+            return "nofault"
     return "%s@%s" % (req["tasks"][f["idx"] - 1]["real"], f["mode"])
 
 
@@ -98,7 +110,8 @@ def _mk_violation(rows, line, inv, mode):
     req = _last_request(evs)
     inst, steps, hist = _steps(evs)
     opsum = _op_summary(req["op"]) if req else "-"
-    key = "E02/%s/%s %s" % (inv, _fault_tag(req), opsum)
+    ftag = _fault_tag(req, evs)
+    key = "E02/%s/%s %s" % (inv, ftag, opsum)
     # an earlier change of the history that failed with an injected fault is part of the input
     prev, cur = None, None
     for e in evs:
@@ -109,14 +122,25 @@ def _mk_violation(rows, line, inv, mode):
                 prev = cur
             cur = None
     if prev is not None:
-        key += " after %s %s" % (_fault_tag(prev), _op_summary(prev["op"]))
+        key += " after %s %s" % (_fault_tag(prev, evs), _op_summary(prev["op"]))
     last = evs[-1]
     desc = ("real snapstate alias code violates %s after %s (fault: %s); %s; history: %s"
-            % (inv, opsum, _fault_tag(req), json.dumps(_state_brief(last["st"]), sort_keys=True), " ; ".join(hist)))
+            % (inv, opsum, ftag, json.dumps(_state_brief(last["st"]), sort_keys=True), " ; ".join(hist)))
     return Violation(key=key, desc=desc,
                      replay={"history": {"id": "replay", "inst": inst, "steps": steps}, "readable": hist,
                              "invariant": inv, "line": line, "mode": mode, "case": last["case"],
                              "real_post_state": last["st"]})
+
+
+def _first_per_case(rows, pairs):
+    """later violations of the same invariant in the same history are consequences of the first one"""
+    seen, out = set(), []
+    for line, inv in sorted(pairs):
+        k = (rows[line - 1]["case"], inv)
+        if k not in seen:
+            seen.add(k)
+            out.append((line, inv))
+    return out
 
 
 def _viol_lines(out):
@@ -148,7 +172,7 @@ def _validate(ctx, cfg, rows, path, name, timeout):
     """strict pass; on a stuck step a lenient pass classifies it. Returns (violations, n_states)"""
     violations = []
     tv = tlc.validate_trace(ctx, "TraceAliases", cfg, path, timeout=timeout, name="strict_" + name)
-    for line, inv in _viol_lines(tv["res"].out):
+    for line, inv in _first_per_case(rows, _viol_lines(tv["res"].out)):
         violations.append(_mk_violation(rows, line, inv, "strict"))
     if tv["accepted"]:
         return violations, tv["res"].distinct
@@ -162,7 +186,7 @@ def _validate(ctx, cfg, rows, path, name, timeout):
                          % (name, lv["stuck_line"], stuck))
     seen = set(v.key for v in violations)
     new = []
-    for line, inv in _viol_lines(lv["res"].out):
+    for line, inv in _first_per_case(rows, _viol_lines(lv["res"].out)):
         v = _mk_violation(rows, line, inv, "lenient (strict validation stuck at line %d)" % stuck)
         if v.key not in seen:
             seen.add(v.key)
